@@ -176,7 +176,7 @@ func main() {
 	}
 	r.Rule = fmt.Sprintf("every byte string of length 0..%d over the %d-symbol alphabet %q (one representative per class the validators distinguish) and every string of up to %d characters over 18 whole characters (5 ASCII representatives, 13 non-ASCII characters: Unicode letters/digits, low byte or low 7 bits an ASCII letter/digit, case-folding look-alikes, non-BMP, invisible) "+
 		"through ParseQualifiedName/IsQualifiedName/ParseDevice/Validate*Name; every (vendor,class,name) with each part any string of length 1..%d over %q "+
-		"through QualifiedName+ParseQualifiedName; oracle = hand-written grammar. Cases are distinct by construction (mixed-radix index); "+
+		"through QualifiedName+ParseQualifiedName; every string of 1..3 alphabet symbols with one symbol stretched to a run of 64..65537 bytes; oracle = hand-written grammar. Cases are distinct by construction (mixed-radix index); "+
 		"non-trivial = the string contains both separators (the grammar gets past the split) or is a composed triple", L, len(alphabet), alphabet, map[bool]int{false: 5, true: 6}[r.Thorough()], K, partAlphabet)
 	r.Assumptions = []string{"bytes outside the alphabet behave like their class representative (letter, digit, each punctuation, control, UTF-8 lead/continuation, invalid byte)",
 		fmt.Sprintf("strings longer than %d / parts longer than %d are not enumerated", L, K)}
@@ -230,6 +230,25 @@ func main() {
 		l.Record(res, func() any { return fmt.Sprintf("string %q -> %s", padded[i], res.Outcome) })
 	})
 	r.Extra["valid_names_with_one_foreign_character"] = len(padded)
+	// long inputs: every string of 1..3 alphabet symbols with one symbol stretched to a run, of
+	// lengths around the sizes at which buffers, quoting limits and length fields change
+	runs := []int{64, 129, 257, 1025, 4097, 65537}
+	var long []string
+	for _, base := range allUpTo(alphabet, 3) {
+		for i := 0; i < len(base); i++ {
+			for _, n := range runs {
+				long = append(long, base[:i]+strings.Repeat(base[i:i+1], n)+base[i+1:])
+			}
+		}
+	}
+	r.ParallelL(int64(len(long)), func(i int64, l *hx.Local) {
+		res := evalString(long[i])
+		if res.Fail != nil {
+			res.Fail.Sig = "long-input:" + res.Fail.Sig
+		}
+		l.Record(res, func() any { return fmt.Sprintf("string of %d bytes -> %s", len(long[i]), res.Outcome) })
+	})
+	r.Extra["long_inputs"] = map[string]any{"strings": len(long), "run_lengths": runs}
 	parts := allUpTo(partAlphabet, K)
 	np := int64(len(parts))
 	r.ParallelL(np*np*np, func(i int64, l *hx.Local) {
